@@ -15,11 +15,71 @@ COMMON_DROPPED = 'extraction drops: docstrings, comments, print/status_message/w
 PROPS = {
     'C02': dict(
         level='proof',
-        functions=[SEQ + f for f in ('countPos', 'countNeg', 'countNeut', 'Fplus', 'Fminus', 'sigma', 'deltaForm', 'delta')],
+        functions=[SEQ + f for f in ('countPos', 'countNeg', 'countNeut', 'Fplus', 'Fminus', 'FCR', 'NCPR', 'sigma', 'deltaForm', 'delta')] + [SP + 'get_delta'],
         lemmas=['count_partition', 'npos_nonneg', 'nneg_nonneg', 'nneut_nonneg'],
         native='c02',
         assumptions=['floating-point rounding is not modelled: "to floating-point accuracy" is checked only by the bounded native comparison (tolerance 1e-9 rel)'],
         design_ref='2 / C02',
+    ),
+    'C04': dict(
+        level='proof',
+        functions=[SEQ + f for f in ('countPos', 'countNeg', 'countNeut', 'Fplus', 'Fminus', 'FCR', 'NCPR', 'mean_net_charge', 'FER',
+                                     'meanHydropathy', 'uverskyHydropathy', 'meanWWHydropathy', 'FPPII_chain', 'molecular_weight',
+                                     'fraction_disorder_promoting', 'amino_acid_fraction')] +
+                  [SP + f for f in ('get_countPos', 'get_countNeg', 'get_countNeut', 'get_fraction_positive', 'get_fraction_negative',
+                                    'get_FCR', 'get_NCPR', 'get_mean_net_charge', 'get_fraction_expanding', 'get_mean_hydropathy',
+                                    'get_uversky_hydropathy', 'get_WW_hydropathy', 'get_PPII_propensity', 'get_molecular_weight',
+                                    'get_fraction_disorder_promoting', 'get_amino_acid_fractions')],
+        lemmas=['count_partition', 'npos_nonneg', 'nneg_nonneg', 'nneut_nonneg', 'C04_identities'],
+        native='c04',
+        assumptions=['published tables are the transcription in /verif/contracts/tables.py (literature sources named there)',
+                     'permutation invariance and the identities FCR=f+ + f-, |NCPR|<=FCR<=1 follow from the proved closed forms (counts / sums of per-residue values); they are also checked natively'],
+        design_ref='2 / C04',
+    ),
+    'C07': dict(
+        level='proof',
+        functions=[SEQ + 'sequence_charge_decoration', SP + 'get_SCD'],
+        lemmas=[],
+        native='c07',
+        assumptions=['sqrt is uninterpreted (x**0.5 = sqrt(x), sqrt >= 0): the proof shows the code computes the same expression as the statement',
+                     'float accuracy checked only natively (1e-9)'],
+        design_ref='2 / C07',
+    ),
+    'C08': dict(
+        level='proof',
+        functions=[SEQ + f for f in ('FCR', 'NCPR', 'Fplus', 'Fminus', 'phasePlotRegion', 'phasePlotAnnotation')] + [SP + 'get_phasePlotRegion'],
+        lemmas=['count_partition', 'npos_nonneg', 'nneg_nonneg', 'nneut_nonneg'],
+        native='c08',
+        assumptions=['thresholds compared over the reals; the float-vs-threshold boundary agreement (7/20, 1/4) is covered by the exhaustive native enumeration of composition triples, not by proof'],
+        design_ref='2 / C08',
+    ),
+    'C09': dict(
+        level='other',
+        functions=[SEQ + f for f in ('charge_at_pH', 'FCR', 'NCPR', 'mean_net_charge', 'FER', 'isoelectric_point')] +
+                  [SP + f for f in ('__verify_pH', 'get_FCR', 'get_NCPR', 'get_mean_net_charge', 'get_fraction_expanding')],
+        lemmas=['hh_mono', 'hh_bounds', 'C09_ncpr_monotone', 'C09_bounds'],
+        native='c09',
+        explanation='proved: titration sums equal the Henderson-Hasselbalch definition at the EMBOSS pKa values (pow10 uninterpreted, positive, strictly increasing), '
+                    'monotonicity and bounds (inductive lemmas), pH range check before the backend, and for isoelectric_point: termination (lexicographic variant), '
+                    '|mean charge per titratable residue| <= 0.02 at the returned pH, 7.0 when nothing titrates. NOT proved: that the search never gives up '
+                    '(the SequenceException exit is allowed by the contract) - bounded enumeration of titratable-count vectors stands in',
+        assumptions=['pow10 is an uninterpreted function with pow10(x) > 0 and strict monotonicity (instances added per query)',
+                     'definite assignment of protein_charge at its first read in isoelectric_point (needs 20 earlier iterations) is argued, not mechanised',
+                     'isoelectric_point may raise SequenceException according to its contract: "returns for every sequence" is bounded-only'],
+        design_ref='2 / C09',
+    ),
+    'C10': dict(
+        level='proof',
+        functions=[SEQ + f for f in ('__check_window_to_length', 'linearDistOfNCPR', 'linearDistOfFCR', 'linearDistOfSigma',
+                                     'linearDistOfHydropathy', 'linearDenistyOfAAs', '__parse_group', 'linearCompositions')] +
+                  [SP + f for f in ('get_linear_NCPR', 'get_linear_FCR', 'get_linear_sigma', 'get_linear_hydropathy',
+                                    'get_linear_sequence_composition')],
+        lemmas=['sum_ext'],
+        native='c10',
+        assumptions=['group members are one-character strings (multi-character or non-string members: native check only)',
+                     'links "w=N equals the global parameter" and "delta = mean squared deviation of the sigma profiles" follow from the shared spec functions (win_* and sigma_of are the ones C02/C04 are proved against); they are additionally checked natively, not as separate theorems',
+                     'iteration over set(list) modelled as iteration over the list (order abstracted)'],
+        design_ref='2 / C10',
     ),
 }
 
